@@ -394,6 +394,9 @@ package chain
 //@     invariant len(m.txpool.v2txns) == preLen2
 //@     invariant m.txpool.indices == idxRef && idxRef != nil
 //@   ensures [atomic] result1 != nil ==> len(m.txpool.txns) == preLen && len(m.txpool.v2txns) == preLen2
+// ... and neither does the cached mid-state: once a transaction of a rejected set was applied to
+// it, it is dropped so that the next query rebuilds it from the pool as it is
+//@   ensures [midstate-dropped] result1 != nil && mayHaveCalled("ApplyTransaction") ==> m.txpool.ms == nil
 //
 //@ func (*Manager).AddV2PoolTransactions props C14,C05
 //@   ensures [revalidated] called("revalidatePool")
@@ -419,6 +422,7 @@ package chain
 //@     invariant len(m.txpool.txns) == preLen1
 //@     invariant m.txpool.indices == idxRef && idxRef != nil
 //@   ensures [atomic] result1 != nil ==> len(m.txpool.v2txns) == preLen && len(m.txpool.txns) == preLen1
+//@   ensures [midstate-dropped] result1 != nil && mayHaveCalled("ApplyV2Transaction") ==> m.txpool.ms == nil
 //
 // C19-B5 (and the ingestion half of C01): AddBlocks never replaces the state of a block that
 // was applied to the best chain (precondition no-overwrite of Store.AddState), also when the
